@@ -11,7 +11,7 @@ from .C03 import const_call
 
 META = {
     "level": "other",
-    "explanation": "Every equivalence the documentation states with `<-->` (docstrings of construct/core.py and docs/*.rst) is parsed and assigned to exactly one discharge method; a law line that fits none is an analysis error, so a newly added law cannot pass unexamined. Methods: *alias* -- both sides reduce to the same constructor term through the singleton/alias table with default arguments filled in (Byte..Double, Bit/Nibble/Octet, Int24ul vs BytesInteger(3, swapped=True), ByteSwapped(Int24ub) vs ByteSwapped(BytesInteger(3))); *literal* -- the right side, parsed as an expression, equals the macro body's returned constructor term (Optional, If, BitStruct, PrefixedArray; Bitwise/Bytewise against the streaming branch, argument order of Restreamed.__init__ from the source); *operator* -- the dunder returns the stated Renamed(...) term on the branch selected by the operand's type; *parallel structure + units* -- BytesInteger and BitsInteger have identical _parse/_build/_sizeof summaries under the helper renaming {bytes2integer<->bits2integer, integer2bytes<->integer2bits, swapbytes<->swapbytesinbits} and the Bitwise/Bytewise sites satisfy the unit arithmetic with factor 8 (helper axioms A1/A2 are assumed, not proved); *swapped-parameter = wrapper* -- BytesInteger's conditional swap step sits next to the stream in both directions (C01.R4) and ByteSwapped wraps with the same involution over exactly sizeof bytes (C10); *enum merge* -- Enum/FlagsEnum.__init__ write entry.name -> entry.value of each merged class into the keyword mapping before deriving their tables. Plus (R1) the undocumented-by-arrow laws named in the property: Padding vs Padded(n, Pass), AlignedStruct, x[n] vs Array, a + b vs Struct, a >> b vs Sequence; (R5) Hex/HexDump wrappers are display-only. (R6) what the alias, integer and Restreamed laws additionally rest on, shared: the 49 public numeric names are bound to the constructor terms the laws name (C03.R1), the bit-string helpers have their reference forms (C10.R5), RestreamedBytesIO is a FIFO that refuses leftovers on close (C10.R4).",
+    "explanation": "Every equivalence the documentation states with `<-->` (docstrings of construct/core.py and docs/*.rst) is parsed and assigned to exactly one discharge method; a law line that fits none is an analysis error, so a newly added law cannot pass unexamined. Methods: *alias* -- both sides reduce to the same constructor term through the singleton/alias table with default arguments filled in (Byte..Double, Bit/Nibble/Octet, Int24ul vs BytesInteger(3, swapped=True), ByteSwapped(Int24ub) vs ByteSwapped(BytesInteger(3))); *literal* -- the right side, parsed as an expression, equals the macro body's returned constructor term (Optional, If, BitStruct, PrefixedArray; Bitwise/Bytewise against the streaming branch, argument order of Restreamed.__init__ from the source); *operator* -- the dunder returns the stated Renamed(...) term on the branch selected by the operand's type; *parallel structure + units* -- BytesInteger and BitsInteger have identical _parse/_build/_sizeof summaries under the helper renaming {bytes2integer<->bits2integer, integer2bytes<->integer2bits, swapbytes<->swapbytesinbits} and the Bitwise/Bytewise sites satisfy the unit arithmetic with factor 8 (helper axioms A1/A2 are assumed, not proved); *swapped-parameter = wrapper* -- BytesInteger's conditional swap step sits next to the stream in both directions (C01.R4) and ByteSwapped wraps with the same involution over exactly sizeof bytes (C10); *enum merge* -- Enum/FlagsEnum.__init__ write entry.name -> entry.value of each merged class into the keyword mapping before deriving their tables. Plus (R1) the undocumented-by-arrow laws named in the property: Padding vs Padded(n, Pass), AlignedStruct, x[n] vs Array, a + b vs Struct, a >> b vs Sequence; (R5) Hex/HexDump wrappers are display-only. (R6) what the alias, integer and Restreamed laws additionally rest on, shared: the 49 public numeric names are bound to the constructor terms the laws name (C03.R1), the bit-string helpers have their reference forms (C10.R5), RestreamedBytesIO is a FIFO that refuses leftovers on close (C10.R4). (R7) both sides of a law compile: the generated code of the classes the laws mention agrees with their interpreter methods (shared with C04.R3/R7).",
     "undecided": "Extensional equality over all inputs; the helper axioms A1 bytes2integer(d) = bits2integer(bytes2bits(d)), A2 swapbytesinbits . bytes2bits = bytes2bits . swapbytes, A3 BytesIO(d).read(len(d)) = d, A4 iterating an enum class yields members with .name/.value.",
     "trusted_base": ["python ast (3.12)", "sa.summ summariser", "sa/tables.py"],
     "assumptions": ["axioms A1-A4"],
@@ -309,7 +309,9 @@ def run(ctx):
     # the public fixed-width names are bound to the FormatField / BytesInteger instances the alias laws name (C03.R1), the bit-string helpers
     # the integer laws rest on have their reference form (C10.R5), and the Restreamed machinery behind Bitwise <--> Restreamed(...) is a FIFO that refuses leftovers (C10.R4)
     from ..core import Ctx as _Ctx
-    for mod, rules in ((C03, ("C03.R1",)), (C10, ("C10.R4", "C10.R5"))):
+    from . import C16
+    # closures patched onto the PrefixedArray/PascalString macros must agree with the documented expansion: the size probe (C16.R6)
+    for mod, rules in ((C03, ("C03.R1",)), (C10, ("C10.R4", "C10.R5")), (C16, ("C16.R6",))):
         sub = _Ctx(mod.__name__.split(".")[-1], ctx.tier, ctx.root, model=ctx.model)
         sub._summ = summariser(ctx)
         mod.run(sub)
@@ -318,7 +320,10 @@ def run(ctx):
         for o in sub.obligations:
             if o.rule in rules:
                 ctx.ob("C12.R6", o.where, o.ok, o.what, key=o.key, loc=o.loc, detail=o.detail)
-    ctx.floor("C12.R6", 99 + 16 + 20)
+    ctx.floor("C12.R6", 99 + 16 + 20 + 3)
+    from . import C04
+    C04.shared_obligations(ctx, "C12.R7", {"BitsInteger", "BytesInteger", "FormatField", "Padded", "Select", "IfThenElse", "Enum", "FlagsEnum", "Hex", "HexDump", "Struct", "FocusedSeq", "Array"})
+    ctx.floor("C12.R7", 10)
 
     # ---------------------------------------------------------------- R1
     fi = M.function("Padding")
